@@ -62,8 +62,8 @@ class Builder:
             if len(self.stack) > 1 or re.search(r"\b(for|while|loop)\b", self.src.masked[a:b]):
                 raise AnchorLost(f"{self.file}:{self.src.line_of(a)}: `continue` inside an inner loop of a loop-body unit (unsupported)")
             n = len(re.findall(r"\bcontinue\s*;", text))
-            text = re.sub(r"\bcontinue\s*;", "return;", text)
-            self.log.append({"rule": "R2b", "real": "continue;", "verified_as": "return;", "at": f"{self.file}:{self.src.line_of(a)}", "count": n})
+            text = re.sub(r"\bcontinue\s*;", self.cont_text, text)
+            self.log.append({"rule": "R2b", "real": "continue;", "verified_as": self.cont_text, "at": f"{self.file}:{self.src.line_of(a)}", "count": n})
         line = self.src.line_of(a)
         # keep leading indentation of first line
         ls = self.src.text.rfind("\n", 0, a) + 1
@@ -135,6 +135,7 @@ class Builder:
             self.cur, self.end = a, b
         self.stack = []
         self.cont_as_ret = "continue_as_return" in kv
+        self.cont_text = kv["continue_as_return"] if isinstance(kv.get("continue_as_return"), str) else "return;"
         self.regions.append({"file": self.file, "fn": name, "lines": [self.src.line_of(self.cur), self.src.line_of(max(self.cur, self.end - 1))]})
 
     def check_sig(self, expected):
@@ -173,7 +174,7 @@ class Builder:
         def drop_fields(text):
             for f in drops:
                 # remove `f <expr>,` at bracket depth 1 of the struct literal
-                pat = re.compile(r"(?m)^[ \t]*" + re.escape(f) + r"[^\n]*,[ \t]*\n")
+                pat = re.compile(r"(?m)^[ \t]*" + re.escape(f) + r"(?:[^\n]*,)?[ \t]*\n")
                 text, n = pat.subn("", text, count=1)
                 if n != 1:
                     raise AnchorLost(f"{self.file}: field `{f}` to drop not found (R1)")
